@@ -22,6 +22,7 @@ import (
 	"go/token"
 	"os"
 	"path/filepath"
+	"reflect"
 	"sort"
 	"strconv"
 	"strings"
@@ -233,6 +234,129 @@ func main() {
 			}
 		}
 	}
+	// pass 1b: aliases. A local variable that is assigned from something rooted at a mutated package-level variable
+	// (an element of a shared table, the result of cache.Load / pool.Get, the result of a function of the same package
+	// that returns such a thing, or something derived from an already tainted local) refers to shared storage;
+	// statements that use such a local get scheduling points like statements that name the variable itself.
+	// Intra-procedural, flow-insensitive, to a fixpoint; function results are summarised per package by name.
+	type fnKey struct {
+		ip   string
+		name string
+	}
+	sharedFuncs := map[fnKey]bool{}
+	tainted := map[*ast.FuncDecl]map[string]bool{}
+	var isShared func(r *resolver, pi *pkgInfo, t map[string]bool, e ast.Expr) bool
+	isShared = func(r *resolver, pi *pkgInfo, t map[string]bool, e ast.Expr) bool {
+		switch x := e.(type) {
+		case nil:
+			return false
+		case *ast.ParenExpr:
+			return isShared(r, pi, t, x.X)
+		case *ast.StarExpr:
+			return isShared(r, pi, t, x.X)
+		case *ast.UnaryExpr:
+			return x.Op == token.AND && isShared(r, pi, t, x.X)
+		case *ast.TypeAssertExpr:
+			return isShared(r, pi, t, x.X)
+		case *ast.IndexExpr:
+			return isShared(r, pi, t, x.X)
+		case *ast.SliceExpr:
+			return isShared(r, pi, t, x.X)
+		case *ast.Ident:
+			if t[x.Name] && !r.isOwnVar(x) {
+				return true
+			}
+			if q := r.root(x); q != "" {
+				_, m := mutated[q]
+				return m
+			}
+			return false
+		case *ast.SelectorExpr:
+			if q := r.root(x); q != "" {
+				_, m := mutated[q]
+				return m
+			}
+			return isShared(r, pi, t, x.X)
+		case *ast.CallExpr:
+			switch f := x.Fun.(type) {
+			case *ast.Ident:
+				return sharedFuncs[fnKey{pi.ip, f.Name}]
+			case *ast.SelectorExpr:
+				if id, ok := f.X.(*ast.Ident); ok && id.Obj == nil && r.imports[id.Name] != "" && !r.isOwnVar(id) {
+					return sharedFuncs[fnKey{r.imports[id.Name], f.Sel.Name}]
+				}
+				// method call: on a shared receiver (cache.Load, pool.Get, shared.method()) or a method of this package known to return shared storage
+				return isShared(r, pi, t, f.X) || sharedFuncs[fnKey{pi.ip, f.Sel.Name}]
+			}
+		}
+		return false
+	}
+	for round := 0; round < 6; round++ {
+		progress := false
+		for _, pi := range pkgs {
+			for _, f := range pi.pkg.Files {
+				r := &resolver{p: pi, imports: fileImports(f), fset: pi.fset}
+				for _, d := range f.Decls {
+					fd, ok := d.(*ast.FuncDecl)
+					if !ok || fd.Body == nil || fd.Name.Name == "init" {
+						continue
+					}
+					t := tainted[fd]
+					if t == nil {
+						t = map[string]bool{}
+						tainted[fd] = t
+					}
+					taint := func(e ast.Expr) {
+						if id, ok := e.(*ast.Ident); ok && id.Name != "_" && !t[id.Name] && !r.isOwnVar(id) {
+							t[id.Name] = true
+							progress = true
+						}
+					}
+					ast.Inspect(fd.Body, func(n ast.Node) bool {
+						switch x := n.(type) {
+						case *ast.AssignStmt:
+							if len(x.Rhs) == 1 && len(x.Lhs) >= 1 {
+								if isShared(r, pi, t, x.Rhs[0]) {
+									taint(x.Lhs[0]) // v, ok := shared.Load(..): only the value
+								}
+							} else {
+								for i := range x.Rhs {
+									if i < len(x.Lhs) && isShared(r, pi, t, x.Rhs[i]) {
+										taint(x.Lhs[i])
+									}
+								}
+							}
+						case *ast.ValueSpec:
+							for i, v := range x.Values {
+								if i < len(x.Names) && isShared(r, pi, t, v) {
+									taint(x.Names[i])
+								}
+							}
+						case *ast.RangeStmt:
+							if isShared(r, pi, t, x.X) && x.Value != nil {
+								taint(x.Value)
+							}
+						case *ast.ReturnStmt:
+							for _, e := range x.Results {
+								if isShared(r, pi, t, e) && !sharedFuncs[fnKey{pi.ip, fd.Name.Name}] {
+									sharedFuncs[fnKey{pi.ip, fd.Name.Name}] = true
+									progress = true
+								}
+							}
+						}
+						return true
+					})
+				}
+			}
+		}
+		if !progress {
+			break
+		}
+	}
+	nTainted := 0
+	for _, t := range tainted {
+		nTainted += len(t)
+	}
 	// pass 2: yields
 	coarse := os.Getenv("INSTRUMENT_COARSE") != "0"
 	nfn := 0
@@ -240,8 +364,9 @@ func main() {
 	for _, pi := range pkgs {
 		for fname, f := range pi.pkg.Files {
 			r := &resolver{p: pi, imports: fileImports(f), fset: pi.fset}
+			var curTaint map[string]bool // tainted locals of the function being instrumented
 			touches := func(n ast.Node) bool {
-				if n == nil {
+				if n == nil || (reflect.ValueOf(n).Kind() == reflect.Ptr && reflect.ValueOf(n).IsNil()) {
 					return false
 				}
 				hit := false
@@ -262,6 +387,8 @@ func main() {
 							if _, ok := mutated[pi.ip+"."+x.Name]; ok {
 								hit = true
 							}
+						} else if curTaint[x.Name] {
+							hit = true
 						}
 					case *ast.FuncLit:
 						return false // its body gets its own yields
@@ -276,6 +403,7 @@ func main() {
 				if !ok || fd.Body == nil || fd.Name.Name == "init" {
 					continue
 				}
+				curTaint = tainted[fd]
 				n := 0
 				yield := func() ast.Stmt {
 					n++
@@ -437,6 +565,12 @@ func main() {
 	}
 	sort.Strings(ms)
 	fmt.Printf("function-entry yields inserted: %d\n", nfn)
+	sf := []string{}
+	for k := range sharedFuncs {
+		sf = append(sf, k.ip+"."+k.name)
+	}
+	sort.Strings(sf)
+	fmt.Printf("aliases of shared storage: %d local variables; functions returning shared storage: %v\n", nTainted, sf)
 	js, _ := json.Marshal(map[string]interface{}{"mutated": ms, "sites": len(sites), "functions": nfn})
 	os.WriteFile(filepath.Join(out, "instrument.json"), js, 0o644)
 }
